@@ -91,3 +91,27 @@ func ZZ_C02_H_History() {
 		floor = nf
 	}
 }
+
+//zzv:bound M5 = the other actor that runs while a fan is regulated: one real RPM-monitor tick (measureRpm: PWM and RPM read, moving average, RPM-curve bookkeeping) of a never-stop hwmon / file / cmd fan from any state, device PWM any 0..255 (so also values below the floor, as a third party or the firmware may leave them), RPM any int: neither the fan's minimum nor the raise offset is lowered, so the floor does not drop between cycles either
+
+func ZZ_C02_M5_MonitorTickKeepsFloor() {
+	kind := zzv.Choice("kind", 3)
+	e := zzNewFan(kind, true, true, kind == zzKindHwmon, true, zzRange("devPwm", 0, 255), 1, zzv.Int("devRpm"))
+	if kind == zzKindHwmon {
+		zzHwmonLimits(e)
+		zzv.Assume(e.hw.RpmMovingAvg >= 0)
+		zzv.Assume(e.hw.RpmMovingAvg <= 20000)
+	}
+	e.zzController(zzLoop(0), 100, 2)
+	c := e.c
+	if zzv.Choice("hasLast", 2) == 1 {
+		l := zzRange("lastSetPwm", 0, 255)
+		c.lastSetPwm = &l
+	}
+	c.minPwmOffset = zzRange("offset", 0, 255)
+	minPre, offPre := e.fan.GetMinPwm(), c.minPwmOffset
+	c.measureRpm(e.fan)
+	zzv.Record("minPost", e.fan.GetMinPwm())
+	zzv.Assert(e.fan.GetMinPwm() >= minPre, "M5.monitor_tick_does_not_lower_the_minimum")
+	zzv.Assert(c.minPwmOffset >= offPre, "M5.monitor_tick_keeps_the_raise")
+}
